@@ -18,6 +18,53 @@ fn normalize_b(win: bool, s: &[u8]) -> Vec<u8> {
     }
 }
 
+/// `absolutize` against the process's current directory: an absolute path is normalised and nothing else, a
+/// relative one is the current directory (converted to the path's encoding) joined with it and normalised;
+/// the typed and UTF-8 forms agree with the byte form
+#[cfg(feature = "std")]
+fn absolutize_checks(ctx: &mut Ctx, win: bool, s: &[u8], n: &Vec<u8>, rp: &String) {
+    let tp = if win { TypedPath::Windows(WindowsPath::new(s)) } else { TypedPath::Unix(UnixPath::new(s)) };
+                let abs = if win { WindowsPath::new(s).is_absolute() } else { UnixPath::new(s).is_absolute() };
+                let a = if win { WindowsPath::new(s).absolutize().map(|x| x.into_vec()) } else { UnixPath::new(s).absolutize().map(|x| x.into_vec()) };
+                if abs {
+                    if a.as_ref().ok().map(|v| v.as_slice()) != Some(n.as_slice()) {
+                        ctx.fail("absolutize-of-absolute-is-normalize", None, rp.clone(), String::new());
+                    }
+                } else {
+                    // relative: the current directory (converted to this encoding), joined, normalised
+                    // (the crate reads the current directory through `&str`: in a directory whose name is not
+                    // UTF-8 there is no answer, and a relative path then has none either)
+                    let cwd = match typed_path::utils::current_dir() {
+                        Ok(c) => c,
+                        Err(_) => {
+                            if a.is_ok() {
+                                ctx.fail("absolutize-of-relative-is-cwd-join-normalize", None, rp.clone(), "the current directory cannot be had, yet a relative path was absolutized".into());
+                            }
+                            return;
+                        }
+                    };
+                    let want = if win {
+                        cwd.with_encoding::<typed_path::WindowsEncoding>().join(WindowsPath::new(s)).normalize().into_vec()
+                    } else {
+                        cwd.with_encoding::<typed_path::UnixEncoding>().join(UnixPath::new(s)).normalize().into_vec()
+                    };
+                    if a.as_ref().ok() != Some(&want) {
+                        ctx.fail("absolutize-of-relative-is-cwd-join-normalize", None, rp.clone(), format!("got {:?} want \"{}\"", a.as_ref().map(|v| lossy(v)).ok(), lossy(&want)));
+                    }
+                }
+                // the typed and UTF-8 forms delegate
+                let ta = tp.absolutize().map(|x| x.into_vec()).ok();
+                if ta != a.as_ref().ok().cloned() {
+                    ctx.fail("typed-absolutize-agrees", None, rp.clone(), String::new());
+                }
+                if let Ok(st) = std::str::from_utf8(s) {
+                    let ua = if win { Utf8WindowsPath::new(st).absolutize().map(|x| x.into_string().into_bytes()).ok() } else { Utf8UnixPath::new(st).absolutize().map(|x| x.into_string().into_bytes()).ok() };
+                    if ua != a.as_ref().ok().cloned() {
+                        ctx.fail("utf8-absolutize-agrees", None, rp.clone(), String::new());
+                    }
+                }
+            }
+
 pub fn c11(ctx: &mut Ctx, tier: &str, seed: u64) {
     for win in [false, true] {
         let e = gen::e(win);
@@ -72,37 +119,7 @@ pub fn c11(ctx: &mut Ctx, tier: &str, seed: u64) {
                 }
             }
             #[cfg(feature = "std")]
-            {
-                let abs = if win { WindowsPath::new(s).is_absolute() } else { UnixPath::new(s).is_absolute() };
-                let a = if win { WindowsPath::new(s).absolutize().map(|x| x.into_vec()) } else { UnixPath::new(s).absolutize().map(|x| x.into_vec()) };
-                if abs {
-                    if a.as_ref().ok().map(|v| v.as_slice()) != Some(n.as_slice()) {
-                        ctx.fail("absolutize-of-absolute-is-normalize", None, rp.clone(), String::new());
-                    }
-                } else {
-                    // relative: the current directory (converted to this encoding), joined, normalised
-                    let cwd = typed_path::utils::current_dir().expect("cwd");
-                    let want = if win {
-                        cwd.with_encoding::<typed_path::WindowsEncoding>().join(WindowsPath::new(s)).normalize().into_vec()
-                    } else {
-                        cwd.with_encoding::<typed_path::UnixEncoding>().join(UnixPath::new(s)).normalize().into_vec()
-                    };
-                    if a.as_ref().ok() != Some(&want) {
-                        ctx.fail("absolutize-of-relative-is-cwd-join-normalize", None, rp.clone(), format!("got {:?} want \"{}\"", a.as_ref().map(|v| lossy(v)).ok(), lossy(&want)));
-                    }
-                }
-                // the typed and UTF-8 forms delegate
-                let ta = tp.absolutize().map(|x| x.into_vec()).ok();
-                if ta != a.as_ref().ok().cloned() {
-                    ctx.fail("typed-absolutize-agrees", None, rp.clone(), String::new());
-                }
-                if let Ok(st) = std::str::from_utf8(s) {
-                    let ua = if win { Utf8WindowsPath::new(st).absolutize().map(|x| x.into_string().into_bytes()).ok() } else { Utf8UnixPath::new(st).absolutize().map(|x| x.into_string().into_bytes()).ok() };
-                    if ua != a.as_ref().ok().cloned() {
-                        ctx.fail("utf8-absolutize-agrees", None, rp.clone(), String::new());
-                    }
-                }
-            }
+            absolutize_checks(ctx, win, s, &n, &rp);
         }
     }
     // `absolutize` of an ABSOLUTE path is `normalize` and nothing else: it must not need the environment.
@@ -151,6 +168,36 @@ pub fn c11(ctx: &mut Ctx, tier: &str, seed: u64) {
             }
             std::env::set_current_dir(&old).expect("restore cwd");
         }
+    }
+    // … and in working directories whose NAMES mean something in the other encoding: a directory called
+    // `D:` or `\\server\share` re-encodes to a Windows prefix, one with a space, a non-ASCII or a non-UTF-8
+    // name, a deep one.  Every absolutize clause again, on a sample of the domain.
+    #[cfg(feature = "std")]
+    {
+        use std::os::unix::ffi::OsStrExt;
+        let old = std::env::current_dir().expect("cwd");
+        let base = std::env::temp_dir().join(format!("tpverif-cwd-{}", std::process::id()));
+        let names: Vec<&[u8]> = vec![b"D:", b"c:", br"\\server\share", br"\\?\C:", b"x y", "d\u{e9}".as_bytes(), b"n\xffn", b"a/b/c/d/e/f/g/h", b"..x", b"C:\\d"];
+        for name in names {
+            let dir = base.join(std::ffi::OsStr::from_bytes(name));
+            if std::fs::create_dir_all(&dir).is_err() || std::env::set_current_dir(&dir).is_err() {
+                continue;
+            }
+            ctx.tally("special-cwd");
+            for win in [false, true] {
+                let mut dom0 = if win { dom_win_small("quick", seed) } else { dom_unix_small("quick", seed) };
+                dom0.truncate(400);
+                dom0.extend([&b"\\foo\\bar"[..], b"/foo/bar", b"foo", b"C:foo", b"D:foo", b"D:\\foo", b"..", b"."].iter().map(|x| x.to_vec()));
+                for s in dedup_keep_order(dom0).iter().filter(|s| well_formed(win, s)) {
+                    ctx.evals += 1;
+                    let rp = format!("x.absolutize-in-cwd-named {} {} {}", hex(name), gen::e(win), hex(s));
+                    let n = normalize_b(win, s);
+                    absolutize_checks(ctx, win, s, &n, &rp);
+                }
+            }
+        }
+        std::env::set_current_dir(&old).expect("restore cwd");
+        let _ = std::fs::remove_dir_all(&base);
     }
     ctx.sample(format!("norm w {}", hex(br"C:\a\.\..\..\b\")));
     ctx.sample(format!("norm u {}", hex(b"/../a/./b/../c")));
